@@ -409,6 +409,11 @@ def ident_strategy(target):
             b = bytearray(draw(st.lists(st.integers(0x20, 0x7E), min_size=n, max_size=n)))
             if kind == "ascii+1" and n:
                 b[draw(st.integers(0, n - 1))] = draw(byte)
+        if draw(st.integers(0, 3)) == 0:     # one text field shorter than its slot, padded
+            lo, hi = draw(st.sampled_from(FIELDS[target]))
+            if hi <= n:
+                k = draw(st.integers(0, hi - lo))
+                b[lo:hi] = bytes(draw(st.lists(st.sampled_from(list(b"0123456789ABZ-")), min_size=k, max_size=k))) + bytes((draw(st.sampled_from((0x20, 0, 0xFF))),)) * (hi - lo - k)
         if kind == "tag" or draw(st.booleans()):
             tag = draw(st.sampled_from(tags))
             pos = serial_at + draw(st.integers(0, 13))
@@ -418,6 +423,44 @@ def ident_strategy(target):
                     b[draw(st.integers(0, n - 1))] = draw(byte)
         return bytes(b)
     return idents()
+
+
+FIELDS = {"ES": [(0, 5), (5, 15), (31, 47), (51, 63)], "discover": [(0, 5), (5, 15), (31, 47), (51, 63)],
+          "ET": [(6, 22), (22, 32), (42, 54), (54, 66)], "DT": [(6, 22), (22, 32), (80, 96)]}
+
+
+def base_ident(target):
+    if target in ("ES", "discover"):
+        return bytearray(siminv.es_device_info())
+    if target == "ET":
+        return bytearray(siminv.et_device_info())
+    return bytearray(siminv.dt_device_info() + b"GW10K-DT\x00\x00\x00\x00\x00\x00\x00\x00")
+
+
+def ident_fields_job(job):
+    """Text fields of the identification block shorter than their slot (padded with spaces, NULs or 0xFF), empty, or
+    non-numeric where the library parses numbers - on an otherwise well-formed block."""
+    target, = job
+    acc = Acc()
+    texts = (b"0123456789AB", b"9Z8Y7X6W5V4U", b"----------------", b"\xff\xfe\xfd\xfc\xfb\xfa")
+    for lo, hi in FIELDS[target]:
+        for k in range(0, hi - lo + 1):
+            for pad in (0x20, 0x00, 0xFF):
+                for t in texts[:2] if k else texts[:1]:
+                    b = base_ident(target)
+                    if len(b) < hi:
+                        continue
+                    b[lo:hi] = (t * 2)[:k] + bytes((pad,)) * (hi - lo - k)
+                    case = {"target": target, "ident": bytes(b)}
+                    for key, msg, c in run_ident(acc, case):
+                        acc.fail(key, msg, c)
+        for t in texts[2:]:
+            b = base_ident(target)
+            if len(b) >= hi:
+                b[lo:hi] = (t * 3)[:hi - lo]
+                for key, msg, c in run_ident(acc, {"target": target, "ident": bytes(b)}):
+                    acc.fail(key, msg, c)
+    return acc
 
 
 def ident_job(job):
@@ -460,6 +503,7 @@ def run(ctx):
     for t in ("discover", "ES", "ET", "DT"):
         for i in range(4):
             ijobs.append((ctx.seed * 1000 + i, m // 4, t))
+    ctx.shard(ident_fields_job, [(t,) for t in ("discover", "ES", "ET", "DT")], "C: every text field of the identification block x every shorter length x padding byte")
     ctx.shard(ident_job, ijobs, "C: hypothesis identification payloads (random / ascii / one non-ascii byte / model tags)")
 
 
